@@ -922,8 +922,13 @@ func (r *c08Run) step(st []any) {
 			applied = false
 			break
 		}
+		r.mu.Lock()
+		og := r.gates["O:"+x.name]
+		atOpen := og != nil && og.hit
+		r.mu.Unlock()
 		x.mu.Lock()
-		if x.ended || x.cut {
+		if x.ended || x.cut || (atOpen && r.sc.Cfg.Stateless) {
+			// (a stateless POST abandoned before its call is published races the ephemeral session's Close)
 			applied = false
 		} else {
 			x.cut = true
